@@ -80,6 +80,8 @@ class C10(Prop):
             default_solver = "ok"
         except Exception as e:  # noqa
             default_solver = type(e).__name__
+        gs.warm(lambda: gs.make_estimator(gs.sibling(sys)).fit_adaptive(np.array(case["B"]) + 0.75, delta_norm1=case["d1"] * 10, delta_radius=case["dr"], adaptive_objective=case["objective"],
+                                                                         scale_w=sw, **kw, **SOLVE))
         X, scales, Bp = est.fit_adaptive(np.array(case["B"]), delta_norm1=case["d1"], delta_radius=case["dr"], adaptive_objective=case["objective"],
                                          scale_w=sw, **kw, **SOLVE)
         return {"X": np.asarray(X, dtype=float).tolist(), "scales": np.asarray(scales, dtype=float).tolist(), "Bpred": np.asarray(Bp, dtype=float).tolist(),
